@@ -284,6 +284,12 @@ def make_cases(pid, tier, seed):
             for path in paths:
                 cases.append({"id": "%s-b%d-p%d-%s" % (pid, bi, pi, path), "body": body, "plan": plan, "path": path,
                               "encode_twice": pid == "C05", "results": 1 if isr else 0, "params": 1 if isp else 0, "locals": 1 if isp else 0})
+                if pid in ("C15", "C16", "C17", "C18", "C19", "C20", "C21", "C22") and path != "compiter" and (bi + pi) % 3 == 0:
+                    # shifted twin: an unused function import in front of the others is deleted through the API before
+                    # ("sb") or after ("sa") the instrumentation, so every function index - original and injected code,
+                    # through every lowering path - must be remapped at encode time; the output must be the same
+                    sh = "before" if (bi + pi) % 2 == 0 else "after"
+                    cases.append(dict(cases[-1], id=cases[-1]["id"] + "-s" + sh[0], shift=sh))
     return cases
 
 
